@@ -145,13 +145,15 @@ func (st *state) buildVariants(r *prng.R) {
 	flipSig(0)(oc)
 	st.label(oc, false, "variant:on-chain+bad-witness")
 	st.vars = append(st.vars, txVar{name: "on-chain+bad-witness", tx: oc, exp: early("already-exists"), inBlock: true})
-	yexp := "has-conflicts"
-	if st.h >= st.recAt+st.mtb() {
-		yexp = "ok" // the conflict record is not traceable any more
+	cexp := func(t *transaction.Transaction) string {
+		if st.conflictInWindow(t) {
+			return "has-conflicts"
+		}
+		return "ok" // no conflicting transaction of one of its signers is traceable any more
 	}
-	st.vars = append(st.vars, txVar{name: "conflict-record", tx: st.yConfl, exp: early(yexp), inBlock: true})
+	st.vars = append(st.vars, txVar{name: "conflict-record", tx: st.yConfl, exp: early(cexp(st.yConfl)), inBlock: true})
 	st.vars = append(st.vars, txVar{name: "conflict-record-of-another-signer", tx: st.zConfl, exp: early("ok"), inBlock: true})
-	st.vars = append(st.vars, txVar{name: "conflict-record-of-second-signer", tx: st.wConfl, exp: early(yexp), inBlock: true})
+	st.vars = append(st.vars, txVar{name: "conflict-record-of-second-signer", tx: st.wConfl, exp: early(cexp(st.wConfl)), inBlock: true})
 	// witnesses
 	add("wrong-key", "witness", false, with(base(accB), func(x *xSpec) { x.post = wrongKey(0) }))
 	add("sig-bitflip", "witness", false, with(base(accB), func(x *xSpec) { x.post = flipSig(0) }))
